@@ -1,7 +1,7 @@
 (* C18 -- parent / owner links always mirror containment.
    Model: theories/Links.v (heap of objects, stored link attributes separate from the containment lists,
    one function per assignment site of the code); proofs: theories/LinksFacts.v.                      *)
-From CssV Require Import Base Links LinksFacts.
+From CssV Require Import Base Gen.LinkSites Links LinksFacts.
 
 (* After ANY history of constructor calls, insertions, assignments, deletions and drops (every site of
    the code that touches containment or a link attribute, in any order, with any arguments), every
@@ -43,6 +43,23 @@ Proof.
 Qed.
 Print Assumptions deleted_detached.
 
+(* A REJECTED sheet.cssText assignment (rule list cleared through the cssRules setter, n rules of the new text
+   constructed and inserted, rollback `self._cssRules = oldCssRules` without setter or post settings -- the shape of
+   _setCssText and the setter's loops are regenerated from the source): every object of the old heap agrees with
+   itself afterwards in kind, stored link attributes and the element list of every role, and LinksOk holds. *)
+Theorem rejected_keeps_links : forall h p n, LinksOk h ->
+  let R := sheet_cssText_rejected h p n in
+  LinksOk R /\ forall i o, get h i = Some o -> exists o', get R i = Some o' /\ same_obj o o'.
+Proof. exact rejected_keeps_links_l. Qed.
+Print Assumptions rejected_keeps_links.
+
+(* rejected calls that reach no assignment site are the identity *)
+Theorem rejected_step_identity :
+  (forall d h p i, removed (dsite_role d) h p i = None -> detach d h p i = h) /\
+  (forall s h p c idx, contained h c = true -> attach s h p c idx = h).
+Proof. split; [exact detach_out_of_range | exact attach_contained]. Qed.
+Print Assumptions rejected_step_identity.
+
 (* the cssRules setters and the Property constructor are compositions of the sites *)
 Theorem set_cssRules_ok : forall h p l, LinksOk h ->
   LinksOk (sheet_set_cssRules h p l) /\ LinksOk (container_set_cssRules h p l).
@@ -63,6 +80,13 @@ Proof. exact ex_nested_pss. Qed.
 Example one_level_derivation_was_wrong :
   option_map (acc_parentStyleSheet_one_level (run ex_ops start)) (get (run ex_ops start) 3) = Some None.
 Proof. exact ex_one_level_derivation_wrong. Qed.
+(* had the sheet's setter detached the rules it replaces, the raw rollback would leave rules that name no sheet *)
+Example detaching_setter_would_break_rollback :
+  let h := run [OAlloc KSheet None None None None; OAlloc KRule None None None None; OAttach SSheetInsert 0 1 0] start in
+  let h1 := detach_all_gen 1 (guarded (Some LPss) [(LPss, LNone)]) RTop h 0 in
+  option_map f_pss (get (raw_set_rules h1 0 [1]) 1) = Some None /\
+  option_map f_pss (get (sheet_cssText_rejected h 0 2) 1) = Some (Some 0).
+Proof. exact ex_detaching_setter_breaks_rollback. Qed.
 Example deleted_example :
   removed RSub (run ex_ops start) 2 0 = Some 3 /\
   option_map f_pr (get (run (ex_ops ++ [ODetach DContDelete 2 0]) start) 3) = Some None.
